@@ -12,7 +12,36 @@ mod c18;
 mod rng;
 mod sys;
 
+use std::alloc::{GlobalAlloc, Layout, System};
 use std::io::{BufRead, BufWriter, Write};
+use std::sync::atomic::{AtomicBool, AtomicUsize, Ordering};
+
+/// Records the largest single allocation request while `ALLOC_TRACK` is on (C06: a server frame
+/// that processes injected bytes must not ask for memory out of proportion to them).
+pub struct SizeRecorder;
+pub static ALLOC_TRACK: AtomicBool = AtomicBool::new(false);
+pub static ALLOC_MAX: AtomicUsize = AtomicUsize::new(0);
+
+unsafe impl GlobalAlloc for SizeRecorder {
+    unsafe fn alloc(&self, layout: Layout) -> *mut u8 {
+        if ALLOC_TRACK.load(Ordering::Relaxed) {
+            ALLOC_MAX.fetch_max(layout.size(), Ordering::Relaxed);
+        }
+        unsafe { System.alloc(layout) }
+    }
+    unsafe fn dealloc(&self, ptr: *mut u8, layout: Layout) {
+        unsafe { System.dealloc(ptr, layout) }
+    }
+    unsafe fn realloc(&self, ptr: *mut u8, layout: Layout, new_size: usize) -> *mut u8 {
+        if ALLOC_TRACK.load(Ordering::Relaxed) {
+            ALLOC_MAX.fetch_max(new_size, Ordering::Relaxed);
+        }
+        unsafe { System.realloc(ptr, layout, new_size) }
+    }
+}
+
+#[global_allocator]
+static GLOBAL: SizeRecorder = SizeRecorder;
 
 pub struct Opts {
     pub seed: u64,
